@@ -6,14 +6,18 @@
    collection and its elements consistent.
    Model: Model/World.v (do_set and the ten set methods over set_add / set_discard / blocks_update; the IR module list
    ml_insert / ml_append / ml_remove / ml_del_at and the slice operations of `step`; the sorted map sd_set / dict_del),
-   Model/WorldGuard.v.  field w p fk = the members of one field of owner p (its children of the field's kinds).
-   Only property theorems here; proofs in Proofs/SetOpsProofs.v, ModListProofs.v, SymxProofs.v, WorldInv.v,
+   Model/WorldGuard.v; Model/SeqOps.v (the read-only half of the sequence interface: index / count / in / [i] / [a:b:c] /
+   reversed / len on the module list, with Python's clamping of bounds).  field w p fk = the members of one field of owner p (its children of the field's kinds).
+   Only property theorems here; proofs in Proofs/SetOpsProofs.v, ModListProofs.v, SeqOpsProofs.v, SymxProofs.v, WorldInv.v,
    WorldProps.v.
    Known finding (recorded as D4, refused by the model with Err EImpossible): item / slice assignment of a module that
    stays elsewhere in the same list, or of a list with repetitions -- see C16_same_list_assignment_refused. *)
 From Coq Require Import ZArith List Bool.
 From V Require Import Result LazyTree World WorldGuard WorldRun ForestDefs InvDefs WorldInv WorldProps.
 From V Require SetOpsProofs ModListProofs SymxProofs.
+From V Require Import SeqOps.
+From V Require SeqOpsProofs.
+From Coq Require Import Sorted.
 Import ListNotations.
 Open Scope Z_scope.
 
@@ -260,6 +264,120 @@ Theorem C16_modlist_reverse : forall w ir,
     (forall x, x <> ir -> kids w' x = kids w x) /\ (forall x, nodes w' x = nodes w x) /\ (forall x, cache w' x = cache w x).
 Proof. exact ModListProofs.reverse_effect. Qed.
 
+(* ================= ir.modules: the read-only half of the sequence interface =================
+   the answers of list.index / count / in / [i] / [a:b:c] / reversed on the module list of any state *)
+
+(* index(x[, start[, stop]]): the bounds are clamped as the built-in does (negative = from the end, then into [0, len]); the
+   answer is the FIRST position inside the bounds holding x, ValueError exactly when there is none *)
+Theorem C16_modlist_index : forall w ir x a b,
+  let l := kids w ir in
+  let lo := index_lo a (length l) in
+  let hi := index_hi b (length l) in
+  (Z.of_nat lo = match a with None => 0
+                 | Some s => if s <? 0 then Z.max 0 (s + Z.of_nat (length l)) else Z.min s (Z.of_nat (length l)) end) /\
+  (Z.of_nat hi = match b with None => Z.of_nat (length l)
+                 | Some s => if s <? 0 then Z.max 0 (s + Z.of_nat (length l)) else Z.min s (Z.of_nat (length l)) end) /\
+  (forall p, py_index l x a b = Ok p <->
+     (lo <= p < hi)%nat /\ nth_error l p = Some x /\ forall q, (lo <= q < p)%nat -> nth_error l q <> Some x) /\
+  (forall e, py_index l x a b = Err e <->
+     e = EValue /\ forall q, (lo <= q < hi)%nat -> nth_error l q <> Some x).
+Proof.
+  intros w ir x a b l lo hi.
+  destruct (SeqOpsProofs.py_index_bounds a b (length l)) as [B1 B2].
+  split; [exact B1|]. split; [exact B2|]. split.
+  - intros p. exact (SeqOpsProofs.py_index_spec l x a b p).
+  - intros e. exact (SeqOpsProofs.py_index_spec_err l x a b e).
+Qed.
+
+(* count and membership; in a reachable state a module is listed at most once, so count is 0 or 1 *)
+Theorem C16_modlist_count_contains : forall w known ir x, reachable_k w known ->
+  let l := kids w ir in
+  py_count l x = count_occ Z.eq_dec l x /\ (py_count l x <= 1)%nat /\
+  (py_contains l x = true <-> In x l) /\
+  (py_contains l x = true <-> (0 < py_count l x)%nat) /\
+  (py_contains l x = true <-> exists p, py_index l x None None = Ok p).
+Proof.
+  intros w known ir x R l.
+  split; [exact (SeqOpsProofs.py_count_spec l x)|].
+  split; [rewrite (SeqOpsProofs.py_count_spec l x);
+          exact (proj1 (NoDup_count_occ Z.eq_dec l) (f_nodup w known (reach_forest w known R) ir) x)|].
+  split; [exact (SeqOpsProofs.py_contains_In l x)|].
+  split; [exact (SeqOpsProofs.py_contains_count l x)|].
+  exact (SeqOpsProofs.py_contains_index l x).
+Qed.
+
+(* l[i]: the element at i, or at len + i for a negative i; IndexError exactly outside [-len, len) *)
+Theorem C16_modlist_getitem : forall w ir i,
+  let l := kids w ir in
+  (forall v, py_getitem l i = Ok v <->
+     (0 <= i < Z.of_nat (length l) /\ nth_error l (Z.to_nat i) = Some v) \/
+     (- Z.of_nat (length l) <= i < 0 /\ nth_error l (Z.to_nat (i + Z.of_nat (length l))) = Some v)) /\
+  (forall e, py_getitem l i = Err e <-> e = EIndex /\ (i < - Z.of_nat (length l) \/ Z.of_nat (length l) <= i)).
+Proof.
+  intros w ir i l. split.
+  - intros v. exact (SeqOpsProofs.py_getitem_spec l i v).
+  - intros e. exact (SeqOpsProofs.py_getitem_spec_err l i e).
+Qed.
+
+(* l[a:b:c]: ValueError exactly for step 0; otherwise the elements at the positions s, s+c, s+2c, ... strictly before e (after
+   e for a negative step), where (s, e, c) = slice(a, b, c).indices(len): every position is inside the list, they are strictly
+   monotone, and the k-th position is s + k*c *)
+Theorem C16_modlist_getslice : forall w ir a b c,
+  let l := kids w ir in
+  (forall e, py_getslice l a b c = Err e <-> e = EValue /\ c = 0) /\
+  (c <> 0 ->
+   exists s e r,
+     py_slice_indices a b c (length l) = Ok (s, e, c) /\
+     py_getslice l a b c = Ok r /\
+     let ps := py_range_positions s e c (length l) in
+     map Some r = map (nth_error l) ps /\
+     Forall (fun p => (p < length l)%nat) ps /\
+     (0 < c -> StronglySorted lt ps) /\ (c < 0 -> StronglySorted gt ps) /\
+     (forall k p, nth_error ps k = Some p <->
+        Z.of_nat p = s + Z.of_nat k * c /\ (if 0 <? c then s + Z.of_nat k * c < e else e < s + Z.of_nat k * c))).
+Proof.
+  intros w ir a b c l. split.
+  - intros e. exact (SeqOpsProofs.py_getslice_err l a b c e).
+  - intros Hc. destruct (SeqOpsProofs.py_getslice_positions l a b c Hc) as (s & e & r & Hi & Hg & Hm & Hin & Hup & Hdown & _ & _).
+    exists s, e, r. split; [exact Hi|]. split; [exact Hg|]. split; [exact Hm|]. split; [exact Hin|].
+    split; [exact Hup|]. split; [exact Hdown|].
+    intros k p. exact (SeqOpsProofs.py_range_positions_nth a b c (length l) s e k p Hi).
+Qed.
+
+(* the bounds slice.indices computes: clamped into [0, len] for a positive step, into [-1, len-1] for a negative one *)
+Theorem C16_modlist_slice_bounds : forall a b c len s e st, py_slice_indices a b c len = Ok (s, e, st) ->
+  st = c /\ c <> 0 /\
+  (0 < c -> 0 <= s <= Z.of_nat len /\ 0 <= e <= Z.of_nat len) /\
+  (c < 0 -> -1 <= s <= Z.of_nat len - 1 /\ -1 <= e <= Z.of_nat len - 1).
+Proof. exact SeqOpsProofs.py_slice_indices_bounds. Qed.
+
+(* the everyday shapes: l[a:b] inside the list is firstn/skipn, l[:] the list, l[::-1] and reversed(l) its reversal *)
+Theorem C16_modlist_getslice_plain : forall w ir,
+  let l := kids w ir in
+  (forall a b, 0 <= a <= Z.of_nat (length l) -> 0 <= b <= Z.of_nat (length l) ->
+     py_getslice l (Some a) (Some b) 1 = Ok (firstn (Z.to_nat (b - a)) (skipn (Z.to_nat a) l))) /\
+  py_getslice l None None 1 = Ok l /\ py_getslice l None None (-1) = Ok (rev l) /\
+  py_reversed l = rev l /\ py_len l = length l.
+Proof.
+  intros w ir l.
+  split; [intros a b; exact (SeqOpsProofs.py_getslice_step1 l a b)|].
+  split; [exact (proj1 (SeqOpsProofs.py_getslice_full l))|].
+  split; [exact (proj2 (SeqOpsProofs.py_getslice_full l))|].
+  split; reflexivity.
+Qed.
+
+(* non-vacuity: the module list [4; 3; 5] of the example below's state h3, asked the corner cases of the built-in *)
+Example C16_modlist_readonly_example :
+  let l := [4; 3; 5] in
+  (py_index l 5 None None, py_index l 5 (Some (-1)) None, py_index l 4 (Some 1) None, py_index l 3 (Some (-100)) (Some 100),
+   py_index l 3 (Some 2) (Some 1)) = (Ok 2%nat, Ok 2%nat, Err EValue, Ok 1%nat, Err EValue) /\
+  (py_count l 3, py_count l 9, py_contains l 5, py_contains l 9) = (1%nat, 0%nat, true, false) /\
+  (py_getitem l (-1), py_getitem l (-3), py_getitem l (-4), py_getitem l 3) = (Ok 5, Ok 4, Err EIndex, Err EIndex) /\
+  (py_getslice l (Some 5) (Some 0) (-1), py_getslice l None None (-2), py_getslice l (Some (-100)) (Some 100) 2,
+   py_getslice l (Some 1) None 0, py_getslice l (Some 2) (Some 1) 1) = (Ok [5; 3], Ok [5; 4], Ok [4; 5], Err EValue, Ok []) /\
+  py_slice_indices None None (-1) 3 = Ok (2, -1, -1).
+Proof. vm_compute. repeat split. Qed.
+
 (* ================= symbolic_expressions: the mutable-mapping interface ================= *)
 
 (* iteration is by ascending offset, one entry per offset *)
@@ -410,6 +528,13 @@ Print Assumptions C16_modlist_setslice.
 Print Assumptions C16_same_list_assignment_refused.
 Print Assumptions C16_modlist_clear.
 Print Assumptions C16_modlist_reverse.
+Print Assumptions C16_modlist_index.
+Print Assumptions C16_modlist_count_contains.
+Print Assumptions C16_modlist_getitem.
+Print Assumptions C16_modlist_getslice.
+Print Assumptions C16_modlist_slice_bounds.
+Print Assumptions C16_modlist_getslice_plain.
+Print Assumptions C16_modlist_readonly_example.
 Print Assumptions C16_symx_iteration_sorted.
 Print Assumptions C16_symx_setitem.
 Print Assumptions C16_symx_del_pop.
